@@ -43,23 +43,15 @@ Proof.
     destruct (find_row site t) as [r|] eqn:E; [|discriminate].
     unfold check in Hc. rewrite forallb_forall in Hc. rewrite (Hc r (find_row_In _ _ _ E)). reflexivity.
   - intros [].
-  - intros -> H. apply N.eqb_eq in H. subst n. reflexivity.
+  - reflexivity.
 Qed.
 
-(* the faithful model violates "one Canceled response per watch": a client cancel yields two *)
-Lemma watch_cancel_once_refuted : exists cc, 1 < watch_cancel_responses true cc.
-Proof. exists true. vm_compute. reflexivity. Qed.
-
-Lemma watch_cancel_once_except_client_cancel : forall cc, cc = false -> watch_cancel_responses true cc = 1.
-Proof. intros cc ->. reflexivity. Qed.
-
-(* the oracle reports exactly the finding's signature on what the model produces *)
-Lemma c20_cancel_oracle_signature gn t cc n :
-  c20_check t (KCancel cc n) = true ->
-  c20_oracle gn t (KCancel cc n) = if cc then Some 1 else None.
-Proof.
-  simpl. intros H. apply N.eqb_eq in H. subst n. destruct cc; reflexivity.
-Qed.
+(* what the watch server does on a client cancel, as transcribed: two Canceled responses for one watch
+   (one from the stream loop, one when the watch goroutine ends); one when the stream just ends *)
+Lemma watch_cancel_responses_client_cancel : watch_cancel_responses true true = 2.
+Proof. reflexivity. Qed.
+Lemma watch_cancel_responses_stream_end : watch_cancel_responses true false = 1.
+Proof. reflexivity. Qed.
 
 (* ---------- limits ---------- *)
 
